@@ -3,8 +3,8 @@
    All distances are squared Euclidean distances over Z (see Model.v). *)
 From Coq Require Import ZArith List Bool Lia Permutation.
 Import ListNotations.
-From FV.C16 Require Import Model ProofsSort ProofsKnn ProofsHd ProofsHop ProofsBuild ProofsScale.
-From FV.C16.gen Require Import Bounds.
+From FV.C16 Require Import Model ProofsSort ProofsKnn ProofsKnnCfg ProofsHd ProofsHop ProofsBuild ProofsScale.
+From FV.C16.gen Require Import Bounds KnnCfg.
 Open Scope Z_scope.
 
 (* possible_dist_min: the clamped distance is a lower bound for every point of the box *)
@@ -230,6 +230,52 @@ Proof.
   - unfold sc. destruct B; [congruence|discriminate].
 Qed.
 
+(* Tie T for the control flow of the k-nearest search: gen/KnnCfg.v holds the
+   decision points read off the current source (which comparison prunes a
+   popped node against the k-th best and against the bound, or/and, whether
+   empty children are skipped, which comparison drops a leaf point, heappushpop
+   or heappush); translate/c16_loops.py accepts the kernel only if everything
+   else matches, up to renaming of locals, the text the model mirrors.
+   The search is proved correct for EVERY accepted configuration: the k-th test
+   may be `>` or `>=` (that only moves the choice among equidistant targets),
+   the other decisions must be the ones of the unchanged code. *)
+Theorem C16_knn_cfg_search_correct :
+  forall cfg, cfg_ok cfg = true ->
+  forall pick fuel k bound q t targets,
+    pick_ok pick -> validb t = true -> tree_of t targets -> (size t < fuel)%nat -> (1 <= k)%nat ->
+    exists res,
+      knn_cfg cfg pick fuel k bound q t = Some res /\
+      map fst res = knn_spec_dists k bound q targets /\
+      length res = k /\
+      (forall e, In e res ->
+         e = pad \/ exists p, nth_pt targets (snd e) = Some p /\ fst e = Fin (d2 q p) /\
+                              within bound q p = true) /\
+      NoDup (map snd (filter finite res)).
+Proof. intros cfg Hok pick fuel k bound q t targets Hp Hv Ht Hf _. apply knn_cfg_correct; auto. Qed.
+
+(* per-run obligation: the configuration translated from /repo is an accepted one *)
+Theorem C16_gen_knn_cfg_ok : cfg_ok gen_cfg = true.
+Proof. vm_compute. reflexivity. Qed.
+
+Theorem C16_knn_translated_search_correct :
+  forall pick fuel k bound q t targets,
+    pick_ok pick -> validb t = true -> tree_of t targets -> (size t < fuel)%nat -> (1 <= k)%nat ->
+    exists res,
+      knn_cfg gen_cfg pick fuel k bound q t = Some res /\
+      map fst res = knn_spec_dists k bound q targets /\
+      length res = k /\
+      (forall e, In e res ->
+         e = pad \/ exists p, nth_pt targets (snd e) = Some p /\ fst e = Fin (d2 q p) /\
+                              within bound q p = true) /\
+      NoDup (map snd (filter finite res)).
+Proof. exact (C16_knn_cfg_search_correct gen_cfg C16_gen_knn_cfg_ok). Qed.
+
+(* with the decisions of the unchanged code the configurable search is the model `search` *)
+Theorem C16_knn_cfg_code_is_model :
+  forall pick k bound q fuel que res,
+    search_cfg cfg_code pick k bound q fuel que res = search pick k bound q fuel que res.
+Proof. exact search_cfg_code. Qed.
+
 (* the specifications on the pre-scaled points (on which the exact octree is
    built) are the scaled specifications of the original points: scaling by s > 0
    multiplies every squared distance by s^2 and changes no comparison *)
@@ -280,3 +326,4 @@ Print Assumptions C16_hop_graph_elemental_correct.
 Print Assumptions C16_elemental_docstring_differs.
 Print Assumptions C16_knn_on_exact_octree.
 Print Assumptions C16_gen_bounds_sound.
+Print Assumptions C16_knn_translated_search_correct.
